@@ -51,6 +51,21 @@ CHECKS = {
  "C12": ("reference-model testing of the format keyword against a model of (checker table, scripted custom functions), plus metamorphic removal of format without a checker",
          "5/C12", "Exploration: format names x instances of every JSON type x checker configurations incl. scripted functions returning truthy/falsy objects or raising listed/unlisted exceptions; flat, nested (vs O-SPEC) and non-string modes.",
          "For built-in functions conformance is the checker's own conforms(); C13 decides the grammars."),
+ "C07": ("model-based stateful testing: generated operation histories on one long-lived validator, each step compared with a fresh validator, plus scope-stack and deep-snapshot invariants",
+         "5/C07", "Exploration: histories of 2-14 operations (is_valid, exhaust, validate, early close, dropped iterator, direct resolve / resolving / in_scope with a raising body, document down->up) over reference worlds, and reuse of one validator across many instances on reference-free schemas.",
+         "Re-entrancy while an iterator of the same validator is suspended is not claimed; CPython's prompt finalisation of dropped generators is assumed."),
+ "C15": ("model-based stateful testing: a family of 6 resolvers (cache_remote x cache functions) driven in lock-step over generated histories with counting / scripted-failure handlers; reference model for resolve()",
+         "5/C15", "Exploration: histories of validations and direct resolutions over 1-3 external documents through several URL spellings; transparency across members, at most one successful fetch with caching on, store untouched with caching off, failures wrapped, metaschemas and store documents served locally, no network attempt.",
+         "Network is stubbed from outside (urlopen / requests) so every attempt is observable."),
+ "C16": ("model-based stateful testing: derivation histories over TypeCheckers, validator classes, validator instances and FormatCheckers with probe vectors recorded at creation and re-checked after every later operation",
+         "5/C16", "Exploration: histories of 2-14 derivation operations; every older object's behaviour vector must stay unchanged, extend() without changes equals its parent, overrides change one keyword only.",
+         "Type names whose redefinition changes how schemas themselves are read (object/array/string/number) are not redefined; registries restored around each case."),
+ "C18": ("schedule exploration: all interleavings (small cases) or drawn schedules of next() steps over 2-3 validators built on colliding world variants, vs solo runs and vs O-SPEC; thread stress",
+         "5/C18", "Exploration with exhaustive enumeration of interleavings when <= 7 errors: validators that collide on base URI, $ref strings, remote URLs, patterns and format names must each yield their solo error sequence; solo runs are themselves checked against O-SPEC so that a shared cache cannot hide in sequential use.",
+         "Generator interleavings are owned by the harness; pre-emptive thread schedules are only provoked (switch interval 1e-6), not enumerated."),
+ "C20": ("reference-model testing of validator_for against a table model (incl. DeprecationWarning), behavioural differential of validate()/CLI vs the selected class on draft-discriminating families, and registration histories",
+         "5/C20", "Exploration: $schema spellings x defaults; 20 schema/instance families on which drafts disagree through jsonschema.validate and the CLI with/without explicit class; histories of 1-6 registrations with fresh and clashing ids, every id looked up after every step.",
+         "Spellings that only match after URI normalisation (case, leading blanks) are not judged."),
 }
 
 NOT_YET = "check not built yet in this revision of /verif (planned in DESIGN.md section 5)"
